@@ -578,6 +578,16 @@ MISC = {
     "while-true-temp-across-await": (True, ["while True:", "    t = self.a ^ self.b", "    await self.a", "    self.o <<= t"], True),
     "while-cond-continue-temp-across-await": (True, ["while self.a:", "    t = self.a ^ self.b", "    await self.b", "    if self.x[0]:", "        continue",
                                                     "    self.o <<= t"], True),
+    # a reference to an element selected with a run-time index carries an index intermediate
+    "indexed-ref-match-across-await": (True, ["elem = self.w[self.x]", "await self.a", "match elem:", "    case '1':", "        self.o2 <<= 1",
+                                             "    case _:", "        self.o2 <<= 2"], True),
+    "indexed-ref-if-across-await": (True, ["elem = self.w[self.x]", "await self.a", "if elem:", "    self.o2 <<= 1"], True),
+    "indexed-ref-assign-across-await": (True, ["elem = self.w[self.x]", "await self.a", "self.o <<= elem"], True),
+    "indexed-ref-match-same-state": (True, ["await self.a", "elem = self.w[self.x]", "match elem:", "    case '1':", "        self.o2 <<= 1",
+                                           "    case _:", "        self.o2 <<= 2"]),
+    "indexed-ref-match-sync": (False, ["elem = self.w[self.x]", "match elem:", "    case '1':", "        self.o2 <<= 1", "    case _:", "        self.o2 <<= 2"]),
+    "indexed-slice-match-sync": (False, ["elem = self.w[self.x]", "match self.w[3:2]:", "    case '10':", "        self.o2 <<= 1", "    case _:",
+                                         "        self.o <<= elem"]),
     "always-expr-reads-bit-of-process-intermediate": (False, ["t = self.w | self.w", "self.o <<= cohdl.always(t[0] | self.a)"], True),
     "always-expr-reads-slice-of-process-intermediate": (False, ["t = self.w | self.w", "self.o2 <<= cohdl.always((t[1:0] | self.w[3:2]).unsigned)"], True),
 }
